@@ -582,6 +582,13 @@ var c07CssLexModel = &Model{
 				}
 			}
 		}
+		for _, e := range c07EscapeCases(r) {
+			emit(c07CssCase("csslex", e.text, ""))
+			emit(c07CssCase("csslex", append(append([]byte{}, e.text[:len(e.text)/2]...), '\r', '\n', 'x'), ""))
+		}
+		for _, e := range c07BadURLCases() {
+			emit(c07CssCase("csslex", e.text, ""))
+		}
 		// boundary cases of the counting loops and of the look-ahead
 		for _, s := range c07CssBoundary {
 			emit(c07CssCase("csslex", []byte(s), ""))
@@ -632,6 +639,9 @@ var c07CssUtilModel = &Model{
 			k = 4
 		}
 		allStrings(c07CssAlphaIdent, k, func(b []byte) { emit(c07CssCase("cssutil", b, "")) })
+		for _, b := range c07UtilEscapeArgs(r) {
+			emit(c07CssCase("cssutil", b, ""))
+		}
 		n := 4000
 		if tier == "thorough" {
 			n = 200000
@@ -795,6 +805,9 @@ func c07OracleUtil(r *Rng, tier string, rep *Report) {
 		k = 4
 	}
 	allStrings(c07CssAlphaIdent, k, func(b []byte) { c07CssCheckUtil(rep, b) })
+	for _, b := range c07UtilEscapeArgs(r) {
+		c07CssCheckUtil(rep, b)
+	}
 	n := 8000
 	if tier == "thorough" {
 		n = 400000
@@ -853,6 +866,186 @@ func c07OracleGrammar(r *Rng, tier string, rep *Report) {
 	}
 }
 
+
+// ---- systematic escape / bad-url cases (CSS Syntax escape diagram; "matching ')'" of a bad url) ----
+
+type c07Expect struct {
+	text []byte
+	want []c07CssTok
+}
+
+func c07Toks(ts ...c07CssTok) []c07CssTok { return ts }
+
+// c07EscapeCases: a hex escape of every length 1..6 followed by a hex digit (length 6 only), a non-hex name
+// character, each whitespace kind, or the end of input, inside every token kind that admits escapes.
+func c07EscapeCases(r *Rng) []c07Expect {
+	var out []c07Expect
+	ws := c07CssTok{css.WhitespaceToken, []byte(" ")}
+	x := c07CssTok{css.IdentToken, []byte("x")}
+	for k := 1; k <= 6; k++ {
+		hexes := [][]byte{c07GenHexN(r, nil, k), append(bytes.Repeat([]byte{'0'}, k-1), "4A6f"[r.Intn(4)])}
+		for _, h := range hexes {
+			esc := append([]byte{'\\'}, h...)
+			// what follows the hex digits inside the token: tail is part of the token
+			type fol struct {
+				tail []byte
+				eof  bool
+			}
+			fols := []fol{{[]byte("g"), false}, {[]byte(" "), false}, {[]byte("\t"), false}, {[]byte("\n"), false}, {[]byte("\f"), false}, {[]byte("\r"), false}, {nil, true}}
+			if k == 6 {
+				fols = append(fols, fol{[]byte("1"), false}, fol{[]byte("B"), false}, fol{[]byte("a"), false})
+			}
+			for _, f := range fols {
+				e := append(append([]byte{}, esc...), f.tail...)
+				add := func(tt css.TokenType, tok []byte, after ...c07CssTok) {
+					text := append([]byte{}, tok...)
+					want := []c07CssTok{{tt, tok}}
+					if !f.eof {
+						text = append(text, " x"...)
+						want = append(want, ws, x)
+						for _, a := range after {
+							text = append(text, a.text...)
+							want = append(want, a)
+						}
+					}
+					out = append(out, c07Expect{text, want})
+				}
+				cat := func(parts ...[]byte) []byte {
+					var b []byte
+					for _, p := range parts {
+						b = append(b, p...)
+					}
+					return b
+				}
+				add(css.IdentToken, cat(e))
+				add(css.IdentToken, cat([]byte("a"), e))
+				add(css.IdentToken, cat([]byte("-"), e))
+				add(css.CustomPropertyNameToken, cat([]byte("--"), e))
+				add(css.AtKeywordToken, cat([]byte("@"), e))
+				add(css.AtKeywordToken, cat([]byte("@b"), e))
+				add(css.HashToken, cat([]byte("#"), e))
+				add(css.HashToken, cat([]byte("#c"), e))
+				add(css.DimensionToken, cat([]byte("1p"), e))
+				add(css.DimensionToken, cat([]byte("1.5"), e))
+				if !f.eof {
+					add(css.FunctionToken, cat([]byte("f"), e, []byte("(")))
+					add(css.StringToken, cat([]byte("\""), e, []byte("\"")))
+					add(css.StringToken, cat([]byte("'z"), e, []byte("y'")))
+					add(css.URLToken, cat([]byte("url("), e, []byte(")")))
+					add(css.URLToken, cat([]byte("URL(q"), e, []byte("r)")))
+					// the escape, a further name character, then whitespace inside url( : malformed
+					add(css.BadURLToken, cat([]byte("url("), e, []byte("1 x)")))
+				} else {
+					// unterminated string / url at the end of input
+					add(css.StringToken, cat([]byte("\""), e))
+					add(css.URLToken, cat([]byte("url("), e))
+				}
+			}
+		}
+	}
+	return out
+}
+
+// c07BadURLCases: a malformed url( whose remnants contain every escape form directly before ')' / the end.
+func c07BadURLCases() []c07Expect {
+	var out []c07Expect
+	rp := c07CssTok{css.RightParenthesisToken, []byte(")")}
+	c := c07CssTok{css.IdentToken, []byte("c")}
+	semi := c07CssTok{css.SemicolonToken, []byte(";")}
+	for _, pre := range []string{"url(a b", "URL(a\"", "url(a(b", "uRl('a' b", "url(a\x01", "url( \"x\ny"} {
+		// escapes that do not hide the ')' : the bad url ends at the first ')'
+		for _, e := range []string{"\\\\", "\\41 ", "\\g", "\\\xc3\xa9", "\\0000411", "\\(", "\\\"", ""} {
+			tok := []byte(pre + e + ")")
+			out = append(out, c07Expect{append(append([]byte{}, tok...), "c)"...), []c07CssTok{{css.BadURLToken, tok}, c, rp}})
+			out = append(out, c07Expect{append(append([]byte{}, tok...), ';'), []c07CssTok{{css.BadURLToken, tok}, semi}})
+			// ... and before the end of input
+			eof := []byte(pre + e)
+			out = append(out, c07Expect{eof, []c07CssTok{{css.BadURLToken, eof}}})
+		}
+		// an escaped ')' does hide it
+		tok := []byte(pre + "\\)c)")
+		out = append(out, c07Expect{append(append([]byte{}, tok...), ';'), []c07CssTok{{css.BadURLToken, tok}, semi}})
+		tok2 := []byte(pre + "\\\\\\)c)")
+		out = append(out, c07Expect{append(append([]byte{}, tok2...), ';'), []c07CssTok{{css.BadURLToken, tok2}, semi}})
+		// a lone backslash at the end of input
+		eof := []byte(pre + "\\")
+		out = append(out, c07Expect{eof, []c07CssTok{{css.BadURLToken, eof}}})
+	}
+	return out
+}
+
+// arguments for IsIdent / IsURLUnquoted built from the escape cases: the whole text, the first token, and the
+// argument of a url( )
+func c07UtilEscapeArgs(r *Rng) [][]byte {
+	var out [][]byte
+	for _, e := range c07EscapeCases(r) {
+		t := e.want[0].text
+		out = append(out, e.text, t)
+		if len(t) > 5 && bytes.EqualFold(t[:4], []byte("url(")) && t[len(t)-1] == ')' {
+			out = append(out, t[4:len(t)-1])
+		}
+	}
+	return out
+}
+
+func c07CheckExpect(rep *Report, e c07Expect, bucket string) {
+	key := hx(e.text)
+	var toks []c07LexedTok
+	if p := catch(func() { toks, _, _, _ = c07LexAll(e.text) }); p != nil {
+		rep.Violate("panic:"+key, fmt.Sprintf("css lexer panics on %q: %v", e.text, p), map[string]interface{}{"input": key})
+		return
+	}
+	bad := len(toks) != len(e.want)
+	for j := 0; !bad && j < len(e.want); j++ {
+		bad = toks[j].tt != e.want[j].tt || !bytes.Equal(toks[j].data, e.want[j].text)
+	}
+	if bad {
+		var want, got []string
+		for _, t := range e.want {
+			want = append(want, fmt.Sprintf("%v(%q)", t.tt, t.text))
+		}
+		for _, t := range toks {
+			got = append(got, fmt.Sprintf("%v(%q)", t.tt, t.data))
+		}
+		rep.Violate("grammar:"+key, fmt.Sprintf("%q: written as %v, lexed as %v", e.text, want, got), map[string]interface{}{"input": key})
+	}
+	rep.Eval(key, true, bucket)
+}
+
+func c07OracleEscapes(r *Rng, tier string, rep *Report) {
+	rounds := 1
+	if tier == "thorough" {
+		rounds = 20
+	}
+	for i := 0; i < rounds; i++ {
+		for _, e := range c07EscapeCases(r) {
+			c07CheckExpect(rep, e, "escape")
+		}
+	}
+	for _, e := range c07BadURLCases() {
+		c07CheckExpect(rep, e, "bad-url")
+	}
+	// CSS Syntax section 3.3 turns CR LF into one LF before tokenizing, so the single whitespace that ends a hex
+	// escape is the whole "\r\n": it belongs to the name and does not start a whitespace token.
+	for k := 1; k <= 6; k++ {
+		name := append(append([]byte{'\\'}, c07GenHexN(r, nil, k)...), "\r\n"...)
+		text := append(append([]byte{}, name...), 'x')
+		var toks []c07LexedTok
+		if p := catch(func() { toks, _, _, _ = c07LexAll(text) }); p != nil {
+			rep.Violate("panic:"+hx(text), fmt.Sprintf("css lexer panics on %q: %v", text, p), map[string]interface{}{"input": hx(text)})
+			continue
+		}
+		if !(len(toks) == 1 && toks[0].tt == css.IdentToken && bytes.Equal(toks[0].data, text)) {
+			var got []string
+			for _, t := range toks {
+				got = append(got, fmt.Sprintf("%v(%q)", t.tt, t.data))
+			}
+			rep.Violate("escape-crlf", fmt.Sprintf("%q: one identifier by CSS Syntax (CR LF is one whitespace after a hex escape), lexed as %v", text, got), map[string]interface{}{"input": hx(text)})
+		}
+		rep.Eval(hx(text), true, "escape-crlf")
+	}
+}
+
 func init() {
 	props["C07"] = &PropSpec{
 		Models: []*Model{c07CssLexModel, c07CssUtilModel},
@@ -860,6 +1053,7 @@ func init() {
 			{Name: "c07-tiling-relex", Run: c07OracleSlices},
 			{Name: "c07-isident-isurl", Run: c07OracleUtil},
 			{Name: "c07-token-grammar", Run: c07OracleGrammar},
+			{Name: "c07-escapes-badurl", Run: c07OracleEscapes},
 		},
 	}
 }
